@@ -111,6 +111,28 @@ UNITS += [
                 ("loop_start", "1", "            proof { let k = it.index@; assert(content_of(*file)[k] == *id); lemma_start_at_mono(content_of(*file), k + 1, content_of(*file).len() as int); }\n            let ghost log0 = this.r.log@;")],
          ),
 ]
+UNITS += [
+    Unit(name="process_existing", file=RS, kind="block", within="pub(crate) fn collect_and_prepare<S: IndexedFull>(",
+         anchor="if entry.depth() == 0 {", block_end="        };\n\n    let mut process_node =",
+         block_sig="fn process_existing(walker: &mut WalkerR, entry: &DirEntry, opts: &VRestoreOpts, dry_run: bool, dest: &LocalDestinationR, stats: &mut RestoreStats, additional_existing: &mut bool) -> (r: RusticResult<Option<DirEntry>>)",
+         block_tail="",
+         functions=["commands::restore::collect_and_prepare (body of the closure process_existing: an entry of the destination that is not in the snapshot)"],
+         rewrites=[
+             Rw("", "", count=None, kind="log", why="logging removed"),
+             Rw("next_entry(walker)", "vnext_entry(walker)", count=None, why="local closure next_entry -> stub"),
+             Rw("dest.remove_dir(entry.path())", "dest.remove_dir(entry.path(), Ghost(opts.delete), Ghost(dry_run))", why="LocalDestination::remove_dir -> effectful stub (precondition: deletion requested, no dry run)"),
+             Rw("dest.remove_file(entry.path())", "dest.remove_file(entry.path(), Ghost(opts.delete), Ghost(dry_run))", why="LocalDestination::remove_file -> effectful stub (precondition: deletion requested, no dry run)"),
+             Rw("additional_existing = ", "*additional_existing = ", count=None, why="captured variable -> &mut parameter"),
+         ],
+         contract="""
+    requires old(stats).dirs.additional < u64::MAX, old(stats).files.additional < u64::MAX,
+    ensures
+        // (implicit obligation, precondition of remove_dir / remove_file: extra entries are removed only if deletion was
+        //  requested and this is no dry run)
+        /*@extra_entries_without_delete_are_reported*/ r is Ok && !opts.delete && old(stats).dirs.additional + old(stats).files.additional < final(stats).dirs.additional + final(stats).files.additional ==> *final(additional_existing),
+"""),
+]
+
 KANI = []
 META = {"not_covered": [
     "the content half of C14 (existing files, delete, verify, sparse): file-system state",
